@@ -31,10 +31,11 @@
 (*     references in some enumeration order, the loader's work-list loop,  *)
 (*     the root initialisation, the evaluation loop.                       *)
 (*                                                                         *)
-(* The object itself is abstract but order sensitive: a log of the applied *)
-(* changes (the thread / patch timeline) and a last-writer field (the      *)
-(* title).  The conformance harness realises it with real issues and       *)
-(* patches (harness/src/cobworld.rs).                                      *)
+(* The object itself is abstract but order sensitive, and exposes what the *)
+(* real projection exposes: the list of applied operations (patch          *)
+(* timeline), the thread timeline, the comments, and two last-writer       *)
+(* fields (title, labels).  The conformance harness realises it with real  *)
+(* issues and patches (harness/src/cobworld.rs).                           *)
 (***************************************************************************)
 EXTENDS Integers, FiniteSets, Sequences, TLC
 
